@@ -778,13 +778,15 @@ fn unfill_json(ch: &mut Chunker, text: &str, o: &textwrap::Options<'_>) -> Value
 }
 
 pub fn rec_unfill(ch: &mut Chunker, s: &str) {
+    textwrap::verif::install();
     let r = guarded(&|| format!("unfill({:?})", s), || {
         let (t, o) = textwrap::unfill(s);
         (t, o.initial_indent.to_string(), o.subsequent_indent.to_string(), o.width, o.line_ending == textwrap::LineEnding::CRLF)
     });
+    let hk = hook_vals(&textwrap::verif::take(), "unfill.options");
     let ev = match r {
-        Ok((t, ii, si, w, crlf)) => json!({"ev": "unfill", "s": ch.cps(s), "text": ch.cps(&t), "ii": ch.cps(&ii), "si": ch.cps(&si), "width": alpha(w).unwrap_or(-1), "crlf": crlf, "status": "ok"}),
-        Err(_) => json!({"ev": "unfill", "s": ch.cps(s), "text": [], "ii": [], "si": [], "width": 0, "crlf": false, "status": "panic"}),
+        Ok((t, ii, si, w, crlf)) => json!({"ev": "unfill", "s": ch.cps(s), "text": ch.cps(&t), "ii": ch.cps(&ii), "si": ch.cps(&si), "width": alpha(w).unwrap_or(-1), "crlf": crlf, "hk": hk, "status": "ok"}),
+        Err(_) => json!({"ev": "unfill", "s": ch.cps(s), "text": [], "ii": [], "si": [], "width": 0, "crlf": false, "hk": [], "status": "panic"}),
     };
     ch.push(ev);
 }
@@ -930,6 +932,7 @@ pub fn rec_c17(ch: &mut Chunker, text: &str, width: usize) {
         Some(w) => w,
         None => return,
     };
+    textwrap::verif::install();
     let r = guarded(&|| format!("fill_inplace({:?}, {})", text, width), || {
         let mut s = text.to_string();
         textwrap::fill_inplace(&mut s, width);
@@ -941,9 +944,10 @@ pub fn rec_c17(ch: &mut Chunker, text: &str, width: usize) {
         let wl: Vec<String> = textwrap::wrap(text, o).iter().map(|l| l.to_string()).collect();
         (s, wl)
     });
+    let hk = hook_vals(&textwrap::verif::take(), "fill_inplace.index");
     let ev = match r {
-        Ok((s, wl)) => json!({"ev": "c17", "text": ch.cps(text), "width": wj, "res": ch.cps(&s), "wl": strs(ch, &wl), "status": "ok"}),
-        Err(_) => json!({"ev": "c17", "text": ch.cps(text), "width": wj, "res": [], "wl": [], "status": "panic"}),
+        Ok((s, wl)) => json!({"ev": "c17", "text": ch.cps(text), "width": wj, "res": ch.cps(&s), "wl": strs(ch, &wl), "hk": hk, "status": "ok"}),
+        Err(_) => json!({"ev": "c17", "text": ch.cps(text), "width": wj, "res": [], "wl": [], "hk": [], "status": "panic"}),
     };
     ch.push(ev);
 }
@@ -969,11 +973,17 @@ fn gen_c17(ch: &mut Chunker, r: &mut Rng, thorough: bool, scale: usize) {
 // C18 / C19
 // ---------------------------------------------------------------------------------------------
 
+fn hook_vals(evs: &[textwrap::verif::Event], site: &str) -> Vec<Vec<i64>> {
+    evs.iter().filter(|e| e.site == site).map(|e| e.vals.clone()).collect()
+}
+
 pub fn rec_dedent(ch: &mut Chunker, s: &str) {
+    textwrap::verif::install();
     let r = guarded(&|| format!("dedent({:?})", s), || textwrap::dedent(s));
+    let hk = hook_vals(&textwrap::verif::take(), "dedent.margin");
     let ev = match r {
-        Ok(res) => json!({"ev": "dedent", "s": ch.cps(s), "res": ch.cps(&res), "status": "ok"}),
-        Err(_) => json!({"ev": "dedent", "s": ch.cps(s), "res": [], "status": "panic"}),
+        Ok(res) => json!({"ev": "dedent", "s": ch.cps(s), "res": ch.cps(&res), "hk": hk, "status": "ok"}),
+        Err(_) => json!({"ev": "dedent", "s": ch.cps(s), "res": [], "hk": [], "status": "panic"}),
     };
     ch.push(ev);
 }
@@ -1074,15 +1084,17 @@ pub fn rec_c20(ch: &mut Chunker, text: &str, cols: usize, o: &Opts, lg: &str, mg
     let mut oc = o.clone();
     oc.width = cw;
     let wl: Vec<String> = guarded(&|| format!("wrap for c20 {:?}", text), || textwrap::wrap(text, oc.to_options()).iter().map(|l| l.to_string()).collect()).unwrap_or_default();
+    textwrap::verif::install();
     let r = guarded(&|| format!("wrap_columns({:?}, {}, {}, {:?}, {:?}, {:?})", text, cols, o.describe(), lg, mg, rg), || {
         textwrap::wrap_columns(text, cols, o.to_options(), lg, mg, rg)
     });
+    let hk = hook_vals(&textwrap::verif::take(), "wrap_columns.layout");
     let (rows, status) = match r {
         Ok(rows) => (rows, "ok"),
         Err(_) => (vec![], "panic"),
     };
     let ev = json!({"ev": "c20", "text": ch.cps(text), "cols": cols, "o": oj, "lg": ch.cps(lg), "mg": ch.cps(mg), "rg": ch.cps(rg),
-                    "cw": alpha(cw).unwrap_or(-1), "wl": strs(ch, &wl), "rows": strs(ch, &rows), "status": status});
+                    "cw": alpha(cw).unwrap_or(-1), "wl": strs(ch, &wl), "rows": strs(ch, &rows), "hk": hk, "status": status});
     ch.push(ev);
 }
 
